@@ -1,13 +1,48 @@
 (* Proofs/SortProofs.v — lemmas about Model/Sort.v and Spec/Order.v for property C15. *)
 From Coq Require Import List NArith ZArith QArith Bool Lia Permutation Sorted.
-From YQ Require Import Base.Str Model.Sort Spec.Order.
+From YQ Require Import Base.Str Spec.Order Model.Sort.
 Import ListNotations.
+Open Scope Z_scope.
 
-(* ------------------------------------------------------------------ *)
-(* the pure insertion sort, for an arbitrary comparator                *)
-(* ------------------------------------------------------------------ *)
+(* ================================================================== *)
+(* 1. the pure insertion sort                                          *)
+(* ================================================================== *)
+Lemma filter_rev {A : Type} (f : A -> bool) (l : list A) : filter f (rev l) = rev (filter f l).
+Proof.
+  induction l as [|a l IH]; [reflexivity|].
+  cbn [rev filter]. rewrite filter_app, IH. cbn [filter].
+  destruct (f a); cbn [rev]; [reflexivity | apply app_nil_r].
+Qed.
+
+Lemma StronglySorted_snoc {A : Type} (R : A -> A -> Prop) (l : list A) (a : A) :
+  StronglySorted R l -> Forall (fun x => R x a) l -> StronglySorted R (l ++ [a]).
+Proof.
+  induction l as [|b l IH]; intros HS HF; cbn [app].
+  - constructor; constructor.
+  - inversion HS as [|? ? HS' HB]; subst. inversion HF as [|? ? Hba HF']; subst.
+    constructor; [apply IH; assumption|].
+    apply Forall_app. split; [assumption | constructor; [assumption | constructor]].
+Qed.
+
+Lemma StronglySorted_rev {A : Type} (R : A -> A -> Prop) (l : list A) :
+  StronglySorted R l -> StronglySorted (fun a b => R b a) (rev l).
+Proof.
+  induction 1 as [|a l HS IH HF]; cbn [rev]; [constructor|].
+  apply StronglySorted_snoc; [exact IH|].
+  apply Forall_rev. exact HF.
+Qed.
+
+Lemma StronglySorted_weaken {A : Type} (R R' : A -> A -> Prop) (l : list A) :
+  (forall a b, R a b -> R' a b) -> StronglySorted R l -> StronglySorted R' l.
+Proof.
+  intros Himp. induction 1 as [|a l HS IH HF]; constructor; [exact IH|].
+  eapply Forall_impl; [|exact HF]. intros b Hb. apply Himp, Hb.
+Qed.
+
 Section Pure.
   Context {A : Type} (lt : A -> A -> bool).
+
+  Definition eqv (z y : A) : bool := negb (lt z y) && negb (lt y z).
 
   Lemma ins_perm x l : Permutation (x :: l) (ins lt x l).
   Proof.
@@ -27,4 +62,311 @@ Section Pure.
     unfold psort. eapply perm_trans; [apply Permutation_rev|].
     eapply perm_trans; [apply sortr_perm|]. apply Permutation_rev.
   Qed.
+
+  (* lt is the strict part of a total preorder *)
+  Hypothesis Hasym : forall a b, lt a b = true -> lt b a = false.
+  Hypothesis Hnt : forall a b c, lt a b = false -> lt b c = false -> lt a c = false.
+
+  Lemma lt_irrefl a : lt a a = false.
+  Proof. destruct (lt a a) eqn:E; [|reflexivity]. pose proof (Hasym _ _ E). congruence. Qed.
+
+  Definition ge (a b : A) : Prop := lt a b = false.
+
+  Lemma ins_sorted x rp : StronglySorted ge rp -> StronglySorted ge (ins lt x rp).
+  Proof.
+    induction rp as [|y r IH]; intros HS; cbn [ins].
+    - constructor; constructor.
+    - inversion HS as [|? ? HS' HF]; subst.
+      destruct (lt x y) eqn:E.
+      + constructor; [apply IH, HS'|].
+        eapply Permutation_Forall; [apply ins_perm|].
+        constructor; [apply Hasym, E | exact HF].
+      + constructor; [exact HS|].
+        constructor; [exact E|].
+        eapply Forall_impl; [|exact HF]. intros z Hz. unfold ge in *. eapply Hnt; eassumption.
+  Qed.
+
+  Lemma sortr_sorted l : StronglySorted ge (sortr lt l).
+  Proof. induction l as [|x l IH]; cbn [sortr]; [constructor | apply ins_sorted, IH]. Qed.
+
+  (* ascending: no later element is smaller than an earlier one *)
+  Definition asc (a b : A) : Prop := lt b a = false.
+
+  Lemma psort_sorted l : StronglySorted asc (psort lt l).
+  Proof. unfold psort. apply (StronglySorted_rev ge). apply sortr_sorted. Qed.
+
+  Lemma ins_filter z x rp : filter (eqv z) (ins lt x rp) = filter (eqv z) (x :: rp).
+  Proof.
+    induction rp as [|y r IH]; [reflexivity|].
+    cbn [ins]. destruct (lt x y) eqn:E; [|reflexivity].
+    cbn [filter] in *. rewrite IH.
+    destruct (eqv z x) eqn:Ex, (eqv z y) eqn:Ey; try reflexivity.
+    exfalso. unfold eqv in Ex, Ey.
+    apply andb_true_iff in Ex as [_ Ex]. apply andb_true_iff in Ey as [Ey _].
+    apply negb_true_iff in Ex, Ey. pose proof (Hnt _ _ _ Ex Ey). congruence.
+  Qed.
+
+  Lemma sortr_filter z l : filter (eqv z) (sortr lt l) = filter (eqv z) l.
+  Proof.
+    induction l as [|x l IH]; [reflexivity|].
+    cbn [sortr]. rewrite ins_filter. cbn [filter]. rewrite IH. reflexivity.
+  Qed.
+
+  Lemma psort_stable z l : filter (eqv z) (psort lt l) = filter (eqv z) l.
+  Proof.
+    unfold psort. rewrite filter_rev, sortr_filter, filter_rev, rev_involutive. reflexivity.
+  Qed.
+
+  Lemma sortr_id rl : StronglySorted ge rl -> sortr lt rl = rl.
+  Proof.
+    induction 1 as [|x t HS IH HF]; [reflexivity|].
+    cbn [sortr]. rewrite IH. destruct t as [|y t']; [reflexivity|].
+    cbn [ins]. inversion HF as [|? ? Hxy _]; subst. unfold ge in Hxy. rewrite Hxy. reflexivity.
+  Qed.
+
+  Lemma psort_id l : StronglySorted asc l -> psort lt l = l.
+  Proof.
+    intros HS. unfold psort. rewrite sortr_id; [apply rev_involutive|].
+    apply (StronglySorted_rev asc) in HS. exact HS.
+  Qed.
+
+  Lemma psort_idempotent l : psort lt (psort lt l) = psort lt l.
+  Proof. apply psort_id, psort_sorted. Qed.
+
+  (* a permutation that is sorted and keeps every equivalence class in order is unique *)
+  Lemma sorted_stable_unique l1 : forall l2,
+    Permutation l1 l2 -> StronglySorted asc l1 -> StronglySorted asc l2 ->
+    (forall z, filter (eqv z) l1 = filter (eqv z) l2) -> l1 = l2.
+  Proof.
+    induction l1 as [|a l1 IH]; intros l2 HP H1 H2 HF.
+    - apply Permutation_nil in HP. congruence.
+    - destruct l2 as [|b l2]; [apply Permutation_sym, Permutation_nil in HP; discriminate|].
+      assert (Hab : a = b).
+      { inversion H1 as [|? ? _ HF1]; subst. inversion H2 as [|? ? _ HF2]; subst.
+        assert (Hba : lt b a = false).
+        { assert (Hin : In b (a :: l1)) by (eapply Permutation_in; [apply Permutation_sym, HP | left; reflexivity]).
+          destruct Hin as [->|Hin]; [apply lt_irrefl|]. rewrite Forall_forall in HF1. apply HF1, Hin. }
+        assert (Hab : lt a b = false).
+        { assert (Hin : In a (b :: l2)) by (eapply Permutation_in; [apply HP | left; reflexivity]).
+          destruct Hin as [->|Hin]; [apply lt_irrefl|]. rewrite Forall_forall in HF2. apply HF2, Hin. }
+        assert (Eaa : eqv a a = true) by (unfold eqv; rewrite lt_irrefl; reflexivity).
+        assert (Eab : eqv a b = true) by (unfold eqv; rewrite Hab, Hba; reflexivity).
+        specialize (HF a). cbn [filter] in HF. rewrite Eaa, Eab in HF. congruence. }
+      subst b. f_equal. apply IH.
+      + eapply Permutation_cons_inv, HP.
+      + inversion H1; assumption.
+      + inversion H2; assumption.
+      + intros z. specialize (HF z). cbn [filter] in HF. destruct (eqv z a); congruence.
+  Qed.
+
+  Lemma psort_unique l l' :
+    Permutation l l' -> StronglySorted asc l' -> (forall z, filter (eqv z) l' = filter (eqv z) l) ->
+    psort lt l = l'.
+  Proof.
+    intros HP HS HF. apply sorted_stable_unique.
+    - eapply perm_trans; [apply Permutation_sym, psort_perm | exact HP].
+    - apply psort_sorted.
+    - exact HS.
+    - intros z. rewrite psort_stable. symmetry. apply HF.
+  Qed.
 End Pure.
+
+(* ================================================================== *)
+(* 2. the sort with a partial comparator (outcome monad)               *)
+(* ================================================================== *)
+Section Partial.
+  Context {A : Type} (less : A -> A -> outcome bool).
+
+  Lemma ins_o_perm x rp r : ins_o less x rp = Ok r -> Permutation (x :: rp) r.
+  Proof.
+    revert r. induction rp as [|y t IH]; intros r H; cbn [ins_o] in H.
+    - injection H as <-. reflexivity.
+    - destruct (less x y) as [b| | |]; cbn [bind] in H; try discriminate.
+      destruct b.
+      + destruct (ins_o less x t) as [t'| | |]; cbn [bind] in H; try discriminate.
+        injection H as <-. eapply perm_trans; [apply perm_swap|]. apply perm_skip. apply IH. reflexivity.
+      + injection H as <-. reflexivity.
+  Qed.
+
+  Lemma sortr_o_perm l r : sortr_o less l = Ok r -> Permutation l r.
+  Proof.
+    revert r. induction l as [|x t IH]; intros r H; cbn [sortr_o] in H.
+    - injection H as <-. constructor.
+    - destruct (sortr_o less t) as [t'| | |]; cbn [bind] in H; try discriminate.
+      apply ins_o_perm in H. eapply perm_trans; [|exact H]. apply perm_skip. apply IH. reflexivity.
+  Qed.
+
+  Lemma sort_o_perm l r : sort_o less l = Ok r -> Permutation l r.
+  Proof.
+    unfold sort_o. intros H. destruct (sortr_o less (rev l)) as [t| | |] eqn:E; cbn [bind] in H; try discriminate.
+    injection H as <-. apply sortr_o_perm in E.
+    eapply perm_trans; [apply Permutation_rev|]. eapply perm_trans; [exact E|]. apply Permutation_rev.
+  Qed.
+
+  (* where the comparator answers like a total one, the sort is the pure sort *)
+  Context (lt : A -> A -> bool).
+
+  Lemma ins_o_pure x rp :
+    (forall y, In y rp -> less x y = Ok (lt x y)) -> ins_o less x rp = Ok (ins lt x rp).
+  Proof.
+    induction rp as [|y t IH]; intros H; cbn [ins_o ins]; [reflexivity|].
+    rewrite (H y (or_introl eq_refl)). cbn [bind].
+    destruct (lt x y); [|reflexivity].
+    rewrite IH; [reflexivity|]. intros z Hz. apply H. right. exact Hz.
+  Qed.
+
+  Lemma sortr_o_pure l :
+    (forall a b, In a l -> In b l -> less a b = Ok (lt a b)) -> sortr_o less l = Ok (sortr lt l).
+  Proof.
+    induction l as [|x t IH]; intros H; cbn [sortr_o sortr]; [reflexivity|].
+    rewrite IH; [|intros a b Ha Hb; apply H; right; assumption]. cbn [bind].
+    apply ins_o_pure. intros y Hy. apply H; [left; reflexivity|].
+    right. eapply Permutation_in; [apply Permutation_sym, sortr_perm | exact Hy].
+  Qed.
+
+  Lemma sort_o_pure l :
+    (forall a b, In a l -> In b l -> less a b = Ok (lt a b)) -> sort_o less l = Ok (psort lt l).
+  Proof.
+    intros H. unfold sort_o, psort. rewrite sortr_o_pure; [reflexivity|].
+    intros a b Ha Hb. apply H; apply in_rev; assumption.
+  Qed.
+End Partial.
+
+(* ================================================================== *)
+(* 3. laws of the spec order                                           *)
+(* ================================================================== *)
+Section Laws.
+  Context {A : Type} (c : A -> A -> comparison) (L : cmp_laws c).
+
+  Lemma cl_refl x : c x x = Eq.
+  Proof. pose proof (cl_antisym c L x x) as H. destruct (c x x); cbn in H; congruence. Qed.
+
+  Lemma cl_eq_sym x y : c x y = Eq -> c y x = Eq.
+  Proof. intros H. rewrite (cl_antisym c L x y), H. reflexivity. Qed.
+
+  Lemma cl_eq_congr_r x y : c x y = Eq -> forall z, c z x = c z y.
+  Proof.
+    intros H z. rewrite (cl_antisym c L x z), (cl_antisym c L y z).
+    rewrite (cl_eq_congr c L x y H z). reflexivity.
+  Qed.
+
+  Lemma cl_gt_lt x y : c x y = Gt -> c y x = Lt.
+  Proof. intros H. rewrite (cl_antisym c L x y), H. reflexivity. Qed.
+
+  Lemma cl_lt_gt x y : c x y = Lt -> c y x = Gt.
+  Proof. intros H. rewrite (cl_antisym c L x y), H. reflexivity. Qed.
+
+  Lemma cl_not_lt_trans x y z : c x y <> Lt -> c y z <> Lt -> c x z <> Lt.
+  Proof.
+    intros H1 H2 H3. destruct (c x y) eqn:E; [| congruence |].
+    - rewrite (cl_eq_congr c L x y E z) in H3. congruence.
+    - apply cl_gt_lt in E. apply H2. eapply (cl_trans_lt c L); eassumption.
+  Qed.
+
+  Lemma cl_flip : cmp_laws (fun x y => c y x).
+  Proof.
+    constructor.
+    - intros x y. apply (cl_antisym c L).
+    - intros x y z H1 H2. eapply (cl_trans_lt c L); eassumption.
+    - intros x y H z. apply cl_eq_congr_r. apply cl_eq_sym. exact H.
+  Qed.
+
+  Lemma cl_not_gt_trans x y z : c x y <> Gt -> c y z <> Gt -> c x z <> Gt.
+  Proof.
+    intros H1 H2 H3. apply cl_gt_lt in H3.
+    assert (c z y <> Lt) by (intro E; apply cl_lt_gt in E; congruence).
+    assert (c y x <> Lt) by (intro E; apply cl_lt_gt in E; congruence).
+    destruct (c z y) eqn:E1; [| congruence |].
+    - rewrite (cl_eq_congr c L z y E1 x) in H3. congruence.
+    - apply cl_gt_lt in E1. apply H0. eapply (cl_trans_lt c L); eassumption.
+  Qed.
+
+  (* the strict part as a boolean satisfies the hypotheses of section Pure *)
+  Lemma cl_ltb_asym x y : is_lt (c x y) = true -> is_lt (c y x) = false.
+  Proof. intros H. destruct (c x y) eqn:E; try discriminate. rewrite (cl_lt_gt _ _ E). reflexivity. Qed.
+
+  Lemma cl_ltb_nt x y z : is_lt (c x y) = false -> is_lt (c y z) = false -> is_lt (c x z) = false.
+  Proof.
+    intros H1 H2. destruct (c x z) eqn:E; try reflexivity. exfalso.
+    eapply (cl_not_lt_trans x y z); try eassumption.
+    - intro E1. rewrite E1 in H1. discriminate.
+    - intro E1. rewrite E1 in H2. discriminate.
+  Qed.
+End Laws.
+
+Lemma lex_laws {A : Type} (c : A -> A -> comparison) : cmp_laws c -> cmp_laws (lex_cmp c).
+Proof.
+  intros L. constructor.
+  - intros x. induction x as [|a x IH]; intros [|b y]; cbn [lex_cmp]; try reflexivity.
+    rewrite (cl_antisym c L a b). destruct (c a b); cbn [CompOpp]; try reflexivity. apply IH.
+  - intros x. induction x as [|a x IH]; intros [|b y] [|d z]; cbn [lex_cmp]; intros H1 H2;
+      try discriminate; try reflexivity.
+    destruct (c a b) eqn:Eab; try discriminate.
+    + rewrite (cl_eq_congr c L a b Eab d). destruct (c b d); try discriminate; try reflexivity.
+      eapply IH; eassumption.
+    + destruct (c b d) eqn:Ebd; try discriminate.
+      * rewrite <- (cl_eq_congr_r c L b d Ebd a), Eab. reflexivity.
+      * rewrite (cl_trans_lt c L a b d Eab Ebd). reflexivity.
+  - intros x. induction x as [|a x IH]; intros [|b y]; cbn [lex_cmp]; intros H z; try discriminate; try reflexivity.
+    destruct (c a b) eqn:Eab; try discriminate.
+    destruct z as [|d z]; cbn [lex_cmp]; [reflexivity|].
+    rewrite (cl_eq_congr c L a b Eab d). destruct (c b d); try reflexivity. apply IH, H.
+Qed.
+
+Lemma N_compare_laws : cmp_laws N.compare.
+Proof.
+  constructor.
+  - intros x y. apply N.compare_antisym.
+  - intros x y z H1 H2. apply N.compare_lt_iff in H1, H2. apply N.compare_lt_iff. lia.
+  - intros x y H z. apply N.compare_eq in H. subst. reflexivity.
+Qed.
+
+Lemma Qcompare_laws : cmp_laws Qcompare.
+Proof.
+  constructor.
+  - intros x y. symmetry. apply Qcompare_antisym.
+  - intros x y z H1 H2. apply Qlt_alt in H1, H2. apply Qlt_alt. eapply Qlt_trans; eassumption.
+  - intros x y H z. apply Qeq_alt in H. rewrite H. reflexivity.
+Qed.
+
+Lemma bool_cmp_laws : cmp_laws bool_cmp.
+Proof.
+  constructor.
+  - intros [] []; reflexivity.
+  - intros [] [] []; cbn; congruence.
+  - intros [] []; cbn; intros H z; try discriminate; reflexivity.
+Qed.
+
+Lemma ord_cmp_laws : cmp_laws ord_cmp.
+Proof.
+  pose proof (lex_laws N.compare N_compare_laws) as LS.
+  constructor.
+  - intros [|a|p|s] [|b|q|t]; cbn [ord_cmp CompOpp]; try reflexivity.
+    + apply (cl_antisym _ bool_cmp_laws).
+    + apply (cl_antisym _ Qcompare_laws).
+    + apply (cl_antisym _ LS).
+  - intros [|a|p|s] [|b|q|t] [|d|r|u]; cbn [ord_cmp]; intros H1 H2; try discriminate; try reflexivity.
+    + eapply (cl_trans_lt _ bool_cmp_laws); eassumption.
+    + eapply (cl_trans_lt _ Qcompare_laws); eassumption.
+    + eapply (cl_trans_lt _ LS); eassumption.
+  - intros [|a|p|s] [|b|q|t]; cbn [ord_cmp]; intros H z; try discriminate; destruct z as [|d|r|u]; cbn [ord_cmp]; try reflexivity.
+    + apply (cl_eq_congr _ bool_cmp_laws), H.
+    + apply (cl_eq_congr _ Qcompare_laws), H.
+    + apply (cl_eq_congr _ LS), H.
+Qed.
+
+Lemma keys_cmp_laws : cmp_laws keys_cmp.
+Proof. apply lex_laws, ord_cmp_laws. Qed.
+
+(* pulled back along any function *)
+Lemma pullback_laws {A B : Type} (c : B -> B -> comparison) (f : A -> B) :
+  cmp_laws c -> cmp_laws (fun x y => c (f x) (f y)).
+Proof.
+  intros L. constructor.
+  - intros x y. apply (cl_antisym c L).
+  - intros x y z. apply (cl_trans_lt c L).
+  - intros x y H z. apply (cl_eq_congr c L), H.
+Qed.
+
+Lemma elem_cmp_laws : cmp_laws elem_cmp.
+Proof. apply (pullback_laws keys_cmp elem_vals), keys_cmp_laws. Qed.
